@@ -5,7 +5,7 @@ import GV.Model.HeaderSym
   implementation is `lead=<b>` (was the builder eligible for the slot — a VRF/threshold matter
   that belongs to C37/C38).
   op:  hdr <c|t> <useed> <slot> <blockNo> <spk> <maxEvo> <ocPeriod> <kesT> <seq> <ctx> <tamper>
-  out: lead=<b> ser=<b> valid=<b> errs=<check names> lkes=<1|0|e> lopc=<b>
+  out: lead=<b> ser=<b> valid=<b> lkes=<1|0|e> lopc=<b> errs=<check names>
   op:  blk <c|t> <useed> <slot> <spk> <ocPeriod> <kesT> <tamper… | seg <i> | flip <off> <bit>>
   out: lead=<b> dec=<b> vb=<1|0:kind>            (flip: lead=<b> vb=<b>)
 -/
@@ -24,6 +24,14 @@ def tampers : List String := ["none", "blockNo", "slot", "prevHash", "issuer", "
   "nonceProofLen", "nonceOutLen"]
 def tpraosOnly : List String := ["nonceProof", "nonceOut", "nonceProofLen", "nonceOutLen"]
 def ctxs : List String := ["ok", "prevslot", "prevslot+", "blockno", "nohash", "badhash", "reg", "regbad"]
+
+/-- header / block flavours: (TPraos layout?, number of body segments); "c"/"t" = babbage/shelley -/
+def eraOf (md : String) : Option (Bool × Nat) :=
+  match md with
+  | "t" | "shelley" | "allegra" | "mary" => some (true, 3)
+  | "alonzo" => some (true, 4)
+  | "c" | "babbage" | "conway" => some (false, 4)
+  | _ => none
 
 structure Built where
   P : Prims T
@@ -99,11 +107,13 @@ def handleHdr (impl : String) (toks : List String) : Out :=
     match parseNat? slot, parseNat? blockNo, parseNat? spk, parseNat? maxEvo, parseNat? ocPeriod,
           parseNat? kesT, parseNat? seq with
     | some slot, some blockNo, some spk, some maxEvo, some ocPeriod, some kesT, some seq =>
-      if (md ≠ "c" ∧ md ≠ "t") ∨ kesT > 63 ∨ slot = 0 ∨ slot ≥ 2 ^ 62 ∨ blockNo = 0 ∨
+      match eraOf md with
+      | none => badOp
+      | some (tp, _) =>
+      if kesT > 63 ∨ slot = 0 ∨ slot ≥ 2 ^ 62 ∨ blockNo = 0 ∨
          blockNo ≥ 2 ^ 64 ∨ spk ≥ 2 ^ 64 ∨ maxEvo ≥ 2 ^ 64 ∨ ocPeriod ≥ 2 ^ 32 ∨ seq ≥ 2 ^ 32 ∨
          !tampers.contains tamper ∨ !ctxs.contains ctx ∨
-         (md = "c" ∧ tpraosOnly.contains tamper) then badOp else
-      let tp := md == "t"
+         (!tp ∧ tpraosOnly.contains tamper) then badOp else
       let lead := impl.startsWith "lead=1"
       if impl.startsWith "lead=0" then { model := "lead=0 notleader", spec := "*" } else
       match buildSym lead tp slot blockNo ocPeriod kesT seq 1234 (9, 1) (T.atom 3) with
@@ -126,7 +136,7 @@ def handleHdr (impl : String) (toks : List String) : Out :=
         let lk := match ledgerKes P vin spk with
           | none => "e" | some true => "1" | some false => "0"
         let lo := boolStr (ledgerOpCert P vin)
-        let model := s!"lead=1 ser=1 valid={boolStr errs.isEmpty} errs={es} lkes={lk} lopc={lo}"
+        let model := s!"lead=1 ser=1 valid={boolStr errs.isEmpty} lkes={lk} lopc={lo} errs={es}"
         -- the property's demand, from the op alone
         let cur := if spk = 0 then 0 else slot / spk
         let inWindow := spk ≠ 0 ∧ cur ≥ ocPeriod ∧ cur - ocPeriod < maxEvo
@@ -134,11 +144,15 @@ def handleHdr (impl : String) (toks : List String) : Out :=
         -- `kesSigOtherT` substitutes the key's genuine signature of another evolution: that is
         -- a tampering only when the builder's own signature was the right one for the slot
         let tampered := tamper ≠ "none" ∧ (tamper ≠ "kesSigOtherT" ∨ signerAtSlot)
+        -- before the certificate's start period nothing may pass: neither the header validator
+        -- nor the ledger's KES verification (which knows no upper end of the window)
+        let early := spk ≠ 0 ∧ cur < ocPeriod
         let spec :=
-          if ¬ inWindow then "lead=1 ser=1 valid=0 *"
+          if early then "lead=1 ser=1 valid=0 lkes=0 *||lead=1 ser=1 valid=0 lkes=e *"
+          else if ¬ inWindow then "lead=1 ser=1 valid=0 *"
           else if tampered then "lead=1 ser=1 valid=0 *"
           else if tamper ≠ "none" then "*"
-          else if signerAtSlot ∧ (ctx = "ok" ∨ ctx = "reg") then "lead=1 ser=1 valid=1 *"
+          else if signerAtSlot ∧ (ctx = "ok" ∨ ctx = "reg") then "lead=1 ser=1 valid=1 lkes=1 lopc=1 *"
           else "*"
         { model := model, spec := spec }
     | _, _, _, _, _, _, _ => badOp
@@ -149,23 +163,24 @@ def handleBlk (impl : String) (toks : List String) : Out :=
   | md :: _useed :: slot :: spk :: ocPeriod :: kesT :: tam =>
     match parseNat? slot, parseNat? spk, parseNat? ocPeriod, parseNat? kesT with
     | some slot, some spk, some ocPeriod, some kesT =>
-      if (md ≠ "c" ∧ md ≠ "t") ∨ kesT > 63 ∨ slot = 0 ∨ slot ≥ 2 ^ 62 ∨ spk = 0 ∨ spk ≥ 2 ^ 64 ∨
+      match eraOf md with
+      | none => badOp
+      | some (tp, nseg) =>
+      if kesT > 63 ∨ slot = 0 ∨ slot ≥ 2 ^ 62 ∨ spk = 0 ∨ spk ≥ 2 ^ 64 ∨
          ocPeriod ≥ 2 ^ 32 then badOp else
-      let tp := md == "t"
       -- tamper kind
       let kind : Option (String × Nat) := match tam with
-        | ["seg", i] => (parseNat? i).bind fun i => if i > 3 ∨ (tp ∧ i > 2) then none else some ("seg", i)
+        | ["seg", i] => (parseNat? i).bind fun i => if i ≥ nseg then none else some ("seg", i)
         | ["flip", o, b] => match parseNat? o, parseNat? b with
           | some _, some b => if b > 7 then none else some ("flip", 0)
           | _, _ => none
-        | [t] => if tampers.contains t ∧ ¬ (md = "c" ∧ tpraosOnly.contains t) then some (t, 0) else none
+        | [t] => if tampers.contains t ∧ ¬ (!tp ∧ tpraosOnly.contains t) then some (t, 0) else none
         | _ => none
       match kind with
       | none => badOp
       | some (tamper, _) =>
         let lead := impl.startsWith "lead=1"
         if impl.startsWith "lead=0" then { model := "lead=0 notleader", spec := "*" } else
-        let nseg := if tp then 3 else 4
         match buildSym lead tp slot 77 ocPeriod kesT 3 nseg (if tp then 2 else 8, 0) (T.segs 0) with
         | none => { model := "lead=0 notleader", spec := "*" }
         | some ⟨P, f, sig⟩ =>
@@ -190,7 +205,8 @@ def handleBlk (impl : String) (toks : List String) : Out :=
           let signerAtSlot := cur ≥ ocPeriod ∧ cur - ocPeriod = kesT
           let tampered := tamper ≠ "none" ∧ (tamper ≠ "kesSigOtherT" ∨ signerAtSlot)
           let spec :=
-            if tampered then "lead=1 dec=0 vb=0*||lead=1 dec=1 vb=0*"
+            if cur < ocPeriod then "lead=1 dec=0 vb=0*||lead=1 dec=1 vb=0*"
+            else if tampered then "lead=1 dec=0 vb=0*||lead=1 dec=1 vb=0*"
             else if tamper = "none" ∧ signerAtSlot then "lead=1 dec=1 vb=1"
             else "*"
           { model := s!"lead=1 dec={boolStr dec} vb={vb}", spec := spec }
